@@ -99,6 +99,7 @@ def c19(res, st, std_coq):
     q = res.tier == "quick"
     cases = gens.parser_cases(rnd, 1500 if q else 30000, 300 if q else 6000, 150 if q else 3000)
     cases += [("ParseStatement", s) for s in gens.regression("C19")]
+    cases += gens.long_lists()[: 16 if q else 32] + gens.CALL_CLAUSE_PROBES
     r = tree_correspondence(res, cases, [("impl", ["tree-pe", "impl"], ["tree-pe", "impl"]),
                                           ("spec", ["tree-pe", "spec"], ["tree-pe", "spec"])])
     gi, mi, mism_i = r["impl"]
@@ -121,12 +122,25 @@ def c19(res, st, std_coq):
     fails, stat = run_oracle("C19", cases)
     for f in fails:
         res.violation("C19 oracle on the implementation: " + f["key"], dict(f, kind="c19-oracle"))
-    if res.broken:
-        # search: an obligation on the tables broke -- look for a tree on which the traversal clause fails concretely
-        wf, _ = run_oracle("C17", cases)
-        for f in wf[:5]:
-            res.violation("traversal does not enumerate exactly the node-typed fields in declaration order: " + f["key"] + " " + f["detail"][:200],
-                          dict(f, kind="c17-oracle"))
+    # Pos()/End() are functions of the CURRENT field values: every method is called once, then every position field of every node of the
+    # returned tree is shifted by 3 in place; the compiled methods and the repository's interpreter of the documented expressions still agree
+    mcases = cases[:: 3 if q else 1]
+    gm = vlib.run_lines(vlib.HARNESS, ["tree-pe", "impl-mut"], gens.case_lines(mcases))
+    sm = vlib.run_lines(vlib.HARNESS, ["tree-pe", "spec-mut"], gens.case_lines(mcases))
+    nmut = 0
+    for (e, s), a, b in zip(mcases, gm, sm):
+        if a != b:
+            nmut += 1
+            if nmut <= 5:
+                res.violation("after position fields are edited in place, Pos()/End() differ from the documented expression over the current values: "
+                              + first_node_diff(a, b),
+                              {"kind": "c19-mutated", "entry": e, "input_hex": hexs(s), "methods": a[-400:], "interpreter": b[-400:]})
+    res.extra["mutated_trees_compared"] = len(gm)
+    # the traversal clause on the same trees (slices longer than 256 and 1024 elements included)
+    wf, _ = run_oracle("C17", cases)
+    for f in wf[:5]:
+        res.violation("traversal does not enumerate exactly the node-typed fields in declaration order: " + f["key"] + " " + f["detail"][:200],
+                      dict(f, kind="c17-oracle"))
     failed = set(v for v in [hexs(s) for (e, s) in cases]) if bad else set()
     res.obligation("correspondence: model of the compiled methods (Gen/PosImpl.v) == n.Pos()/n.End() on %d nodes" % nodes,
                    not [t for t in mism_i if not bad], "\n".join("%s\n go:    %s\n model: %s" % (a, b[-300:], c[-300:]) for a, b, c in mism_i[:3]))
@@ -169,6 +183,7 @@ def c17(res, st, std_coq):
     cases = gens.parser_cases(rnd, 1000 if q else 20000, 200 if q else 4000, 150 if q else 3000)
     cases += [("ParseStatement", s) for s in gens.regression("C17")]
     # error-recovered trees from systematic error injection (Bad nodes nested in every production; hints in every place)
+    cases += gens.long_lists()[: 16 if q else 32] + gens.CALL_CLAUSE_PROBES
     inj = gens.injection_cases(rnd, q)
     cases += inj if not q else [c for i, c in enumerate(inj) if i % 3 == 0 or b"@{" in c[1]]
     prunes = [(0, 0), (2, 1), (3, 0), (5, 2)] if q else [(0, 0), (2, 0), (2, 1), (3, 0), (3, 1), (3, 2), (5, 2), (7, 3)]
